@@ -409,6 +409,11 @@ func drawWireOps(t *rapid.T, tableLen int) []wire.Op {
 		}
 		code := rapid.SampledFrom([]uint64{4, 5, 15, 16}).Draw(t, "wo.setop")
 		return []wire.Op{{Kind: 1, Val: mk("wo.l")}, {Kind: 1, Val: mk("wo.r")}, {Kind: 3, Code: code}}
+	case 4: // a string operation between two strings of the token's tables (patterns may be invalid regular expressions)
+		l := wire.Term{K: wire.TStr, U: drawIndex(t, "wo.sl", tableLen)}
+		r := wire.Term{K: wire.TStr, U: drawIndex(t, "wo.sr", tableLen)}
+		code := rapid.SampledFrom([]uint64{8, 8, 8, 5, 6, 7, 9, 4}).Draw(t, "wo.strop")
+		return []wire.Op{{Kind: 1, Val: l}, {Kind: 1, Val: r}, {Kind: 3, Code: code}}
 	case 1: // plausible comparison
 		return []wire.Op{{Kind: 1, Val: drawWireTerm(t, tableLen, 0, true)}, {Kind: 1, Val: drawWireTerm(t, tableLen, 0, true)},
 			{Kind: 3, Code: uint64(rapid.IntRange(0, 16).Draw(t, "wo.bin"))}}
@@ -459,7 +464,7 @@ func drawWireBlock(t *rapid.T, prior int) (*wire.Block, int) {
 	b := &wire.Block{}
 	ns := rapid.IntRange(0, 3).Draw(t, "wb.nsym")
 	for i := 0; i < ns; i++ {
-		b.Symbols = append(b.Symbols, rapid.SampledFrom([]string{"a", "b", "file1", "read", "right", "zz", "", "a"}).Draw(t, "wb.sym"))
+		b.Symbols = append(b.Symbols, rapid.SampledFrom([]string{"a", "b", "file1", "read", "right", "zz", "", "a", "(", "[a-", "*a", "(?P<n", "\\", "a{2,1}", "^a.*$", "\xff"}).Draw(t, "wb.sym"))
 	}
 	tl := prior + ns
 	v := uint32(3)
